@@ -300,6 +300,8 @@ func (e diskEngine) Gen(job *Job) *Case {
 			// a project with 2-4 rule violations of the generator's 27 defect kinds (duplicates,
 			// undefined references, broken path parameters, ...): error paths are code too
 			c.Project = genMultiDefect(r.Fork())
+		} else if r.Chance(1, 4) {
+			c.Project = genSingleDefect(r.Fork())
 		}
 	case k < w[0]+w[1]:
 		mode := []string{"graph", "graph", "hostile", "hostile", "hostile", "cycle"}[r.Intn(6)]
@@ -598,7 +600,7 @@ func (e diskEngine) Exec(c *Case, job *Job) *Result {
 			garbage = true
 		}
 	}
-	modelAsserted := (strings.HasPrefix(c.Project.Kind, "light") || c.Project.Kind == "generated-valid" || c.Project.Kind == "generated-late-defect" || c.Project.Kind == "multi-defect" || c.Project.Kind == "macro-graph" || strings.HasPrefix(c.Project.Kind, "special")) && !garbage
+	modelAsserted := (strings.HasPrefix(c.Project.Kind, "light") || c.Project.Kind == "generated-valid" || c.Project.Kind == "generated-late-defect" || c.Project.Kind == "multi-defect" || c.Project.Kind == "single-defect" || c.Project.Kind == "macro-graph" || strings.HasPrefix(c.Project.Kind, "special")) && !garbage
 	for _, f := range c.Faults {
 		if f.Kind == "flip" || f.Kind == "setbyte" || f.Kind == "lost-zero" || f.Kind == "filler-tail" {
 			if !strings.HasPrefix(c.Project.Kind, "light") {
